@@ -48,6 +48,17 @@ CHECKS["C01"] = dict(
     note="bounded sizes, seeded sampling; weights are the code's own cellvolume (what domainIntegral uses); SphericalGrid3D additionally checked against midpoint volumes",
     technique="TLA+ predicates evaluated by TLC on lifted builder outputs (weighted column sums), reference semantics as tripwire")
 
+CHECKS["C04"] = dict(
+    text="Inverse formulation (DESIGN 3.3 D2): the specification fixes the post-state x* (small integers on every cell, ghosts included) and the boundary data derived from it; the source is derived from the code's own matrices; the real solvePDE, solveMatrixPDE on the hand-assembled system, an external recording solver, five algebraically identical presentations of the term list (re-ordered, split and scaled, doubly negated, unpaired, paired) and superposed data are run, all results are lifted to exact rationals and TLC (FVTraceOps) checks result = x*, identity of the returned object, equality of the systems, row-wise assembly (boundary rows = BC rows, interior rows = terms) and linearity with zero tolerance.",
+    ref="DESIGN.md 5/C04",
+    note="bounded sizes, seeded sampling; instances with condition number > 1e5 are skipped and counted; lifting tolerance scaled with the condition number",
+    technique="TLA+ inverse-formulation predicates evaluated by TLC on lifted solver results and assembled systems")
+CHECKS["C12"] = dict(
+    text="On the same inverse-formulation instances TLC evaluates the backward-Euler residual alpha(new-old)/dt + A new = gamma cell by cell on the lifted solvePDE result and the lifted code matrices, the fixed-point clause (a steady solution started from itself is returned unchanged for every dt, alpha), the explicit step (old + dt*RHS on interior cells, BCs re-imposed, input byte-identical, result a new object) and the usability of the explicit result by solvePDE. The limit clauses dt->0, dt->inf and O(dt^2) agreement are asymptotic and only observed in floating point as supporting evidence (DESIGN 8).",
+    ref="DESIGN.md 5/C12, 8",
+    note="limits themselves are not decided by TLC (no reals); exact algebraic forms are",
+    technique="TLA+ residual / fixed-point / explicit-step predicates evaluated by TLC on lifted solver results")
+
 NOT_APPLICABLE = {
  "C02": "asymptotic convergence order under refinement: no reals/limits in TLA+, exact lifting does not survive solves on refined grids (DESIGN 8)",
 }
